@@ -4,6 +4,9 @@ import json, subprocess, os
 ALL = ["C%02d" % i for i in range(1, 21)]
 # property -> (technique, level text, level note, design ref)
 CHECKS = {
+ "C03": ("runtime round-trip monitor: packet API output checked by an independent strict TLV walker and re-decoded under many segmentations",
+         "Every generated (name, optional-field subset, payload split, signer) case is built by MakeData/MakeInterest, verified byte-level by an independent walker (exact lengths, shortest form, field bytes), and decoded contiguously and under 20-150 segmentations per packet; all decoded fields, the signed portion and the standalone Name/Component encoders are compared. ~10^4 (quick) to 10^5 (thorough) packets per run.",
+         "Trusted: internal/tlvwalk and its container schema; Interest names without caller-invented ParametersSha256Digest components; nonce/hop-limit within their wire domain.", "5/C03"),
  "C14": ("runtime law monitor over generated name pairs/triples + panic sanitizing of the URI parsers",
          "Every law of the statement (canonical total order, Equal<=>encoding equality<=>Compare==0, prefix relation, Equal=>Hash equal, PrefixHash[i]=Hash(name[:i]), URI round trip, parsers never panic) is evaluated by an oracle on >10^5 generated, adversarially close cases per run; a run reports the distinct relation/shape classes it actually observed.",
          "Trusted: the harness's own 20-line canonical order; hash collisions are not searched for.", "5/C14"),
